@@ -2,6 +2,9 @@ package otr3
 
 import "bytes"
 
+// the fragment index and count are transmitted as unsigned shorts
+const maxFragments = 65535
+
 var (
 	fragmentSeparator      = []byte{','}
 	fragmentItagsSeparator = []byte{'|'}
@@ -14,23 +17,23 @@ type fragmentationContext struct {
 	currentIndex, currentLen uint16
 }
 
-func min(l, r uint16) uint16 {
+func min(l, r int) int {
 	if l < r {
 		return l
 	}
 	return r
 }
 
-func fragmentStart(i, fraglen uint16) uint16 {
-	return uint16(i * fraglen)
+func fragmentStart(i, fraglen int) int {
+	return i * fraglen
 }
 
-func fragmentEnd(i, fraglen, l uint16) uint16 {
-	return uint16(min((i+1)*fraglen, l))
+func fragmentEnd(i, fraglen, l int) int {
+	return min((i+1)*fraglen, l)
 }
 
-func fragmentData(data []byte, i int, fraglen, l uint16) []byte {
-	return data[fragmentStart(uint16(i), fraglen):fragmentEnd(uint16(i), fraglen, l)]
+func fragmentData(data []byte, i int, fraglen, l int) []byte {
+	return data[fragmentStart(i, fraglen):fragmentEnd(i, fraglen, l)]
 }
 
 // SetFragmentSize sets the maximum size for a message fragment.
@@ -48,17 +51,20 @@ func (c *Conversation) fragment(data encodedMessage, fraglen uint16) []ValidMess
 	}
 
 	fakeHeader := c.version.fragmentPrefix(1, 1, c.ourInstanceTag, c.theirInstanceTag)
-	realFraglen := (fraglen - uint16(len(fakeHeader))) - 1
+	realFraglen := int(fraglen) - len(fakeHeader) - 1
 
 	if realFraglen <= 0 {
 		return []ValidMessage{ValidMessage(data)}
 	}
 
-	numFragments := (l / int(realFraglen)) + 1
+	numFragments := (l / realFraglen) + 1
+	if numFragments > maxFragments {
+		return []ValidMessage{ValidMessage(data)}
+	}
 	ret := make([]ValidMessage, numFragments)
 	for i := 0; i < numFragments; i++ {
 		prefix := c.version.fragmentPrefix(i, numFragments, c.ourInstanceTag, c.theirInstanceTag)
-		ret[i] = append(append(prefix, fragmentData(data, i, realFraglen, uint16(l))...), fragmentSeparator[0])
+		ret[i] = append(append(prefix, fragmentData(data, i, realFraglen, l)...), fragmentSeparator[0])
 	}
 	return ret
 }
